@@ -177,7 +177,7 @@ func init() {
 			"transport modes {normal, typesHash tampered, body truncated at k, body failing at k}; oracle: common names equal the exporter's content, names unknown to the exporter get 404 and keep their sentinel entries, tampered hash gets 400 and nothing is imported, " +
 			"truncated/failing bodies import a subset without panic; types hash: child processes register seeded permutations/multisets of a pool of 12 types (equal sets => equal hash in every process, set plus one type => different hash); " +
 			"a genuinely separate exporter process with a different type set serves over stdin/stdout and nothing may be imported; distinct_nontrivial = distinct (names on both sides, mode, backend pairing) transfer cells + distinct type sets hashed",
-		Required:    []string{"transfers.normal", "transfers.tampered", "transfers.truncated", "transfers.failbody", "status.404", "status.400", "status.200", "hash.processes", "hash.sets_compared", "hash.added_type_differs", "hash.variadic_groupings", "twoprocess.transfers", "entries.imported", "transfers.hostile_names", "transfers.fault_on_one_cache_only"},
+		Required:    []string{"transfers.normal", "transfers.tampered", "transfers.truncated", "transfers.failbody", "status.404", "status.400", "status.200", "hash.processes", "hash.sets_compared", "hash.added_type_differs", "hash.variadic_groupings", "twoprocess.transfers", "latereg.equal_hash_imports", "latereg.stale_hash_requests", "entries.imported", "transfers.hostile_names", "transfers.fault_on_one_cache_only"},
 		Assumptions: []string{"GobTypesHashReset is a test helper and is never called; the registered set is what a fresh process registered"},
 		Timeout:     func(string) time.Duration { return 45 * time.Minute },
 	})
@@ -208,6 +208,86 @@ func runC14(b *Batch) {
 	}
 	if b.Index < b.Pick(4, 16) && b.Only < 0 {
 		c14TwoProcess(b, n+nh)
+	}
+	nl := b.Pick(8, 96) / b.NBatches
+	if nl == 0 && b.Index < 8 {
+		nl = 1
+	}
+	for i := 0; i < nl; i++ {
+		if b.Skip(n + nh + 1 + i) {
+			continue
+		}
+		c14LateRegister(b, n+nh+1+i)
+	}
+}
+
+// lateRegChild: vh latereg <spec> - one long-lived Export handler in a process whose registered type set grows between
+// requests (registration is process-global and add-only, hence the child process). After every registration step an
+// importer of the same process (equal hash) must receive everything, and a request carrying any earlier hash must be refused.
+func lateRegChild(a []string) {
+	src := cache.NewShardedMap()
+	for i := 0; i < 5; i++ {
+		_ = src.Write(bg, []byte(fmt.Sprintf("remote-%d", i)), fmt.Sprintf("value-%d", i))
+	}
+	exp := &cache.HTTPTransfer{}
+	exp.AddCache("shared", src)
+	h := exp.Export()
+	var old []uint64
+	step := func(label string) {
+		cur := cache.GobTypesHash()
+		imp := &cache.HTTPTransfer{Transport: &c14Transport{handler: h, statuses: map[string]int{}, bodyLens: map[string]int{}}}
+		dst := cache.NewShardedMap()
+		imp.AddCache("shared", dst)
+		err := imp.Import(bg, "http://exporter.invalid/export")
+		if err != nil || dst.Len() != 5 {
+			fmt.Printf("VIOL equal-hash-refused %s: importer with the exporter's current type set imported %d of 5 entries (err=%v)\n", label, dst.Len(), err)
+		}
+		for _, o := range old {
+			if o == cur {
+				continue
+			}
+			rec := httptest.NewRecorder()
+			h.ServeHTTP(rec, httptest.NewRequest(http.MethodGet, "/export?name=shared&typesHash="+strconv.FormatUint(o, 10), nil))
+			if rec.Code != http.StatusBadRequest {
+				fmt.Printf("VIOL stale-hash-served %s: request with hash %d (exporter now %d) answered %d with %d body bytes\n", label, o, cur, rec.Code, rec.Body.Len())
+			}
+			fmt.Println("CHECKED stale")
+		}
+		old = append(old, cur)
+		fmt.Println("CHECKED equal")
+	}
+	step("before")
+	for i, call := range strings.Split(a[0], ",") {
+		registerSpec(call)
+		step(fmt.Sprintf("after-registration-%d(%s)", i+1, call))
+	}
+}
+
+func c14LateRegister(b *Batch, idx int) {
+	rng := rand.New(rand.NewSource(b.CaseSeed(idx)))
+	perm := rng.Perm(len(c14Pool))[:1+rng.Intn(3)]
+	var parts []string
+	for _, p := range perm {
+		parts = append(parts, strconv.Itoa(p))
+	}
+	spec := strings.Join(parts, ",")
+	out, err := c14RunSelf("latereg", spec)
+	b.R.Eval()
+	if err != nil {
+		b.R.Inconcl("C14 late registration child failed: " + err.Error())
+		return
+	}
+	b.R.Nontrivial("latereg/" + spec)
+	for _, line := range strings.Split(out, "\n") {
+		switch {
+		case strings.HasPrefix(line, "VIOL "):
+			f := strings.SplitN(line[5:], " ", 2)
+			b.R.Violate(b, idx, "C14:latereg-"+f[0], line[5:], map[string]interface{}{"registrations": spec})
+		case line == "CHECKED equal":
+			b.R.Count("latereg.equal_hash_imports", 1)
+		case line == "CHECKED stale":
+			b.R.Count("latereg.stale_hash_requests", 1)
+		}
 	}
 }
 
